@@ -111,7 +111,7 @@ def judge_cases(res, cases, clause_prefixes, nontrivial_fn, known, sample_every=
         if nontrivial_fn(c):
             res.nontrivial.add(hashlib.blake2b(c.line.encode(), digest_size=8).digest())
         if c.tag:
-            res.count("tag:" + c.tag.split("+")[0])
+            res.count("tag:" + re.split(r"[+@]", c.tag)[0])
         res.count("obs:" + c.obs.split(" ", 1)[0])
         explained = False
         if mine:
